@@ -30,7 +30,7 @@ def run_lru(c):
         out.append([r, [k in cache for k in LRU_KEYS]])
     return out
 
-CURRENT_VARIANTS = [1, 0, 1]
+CURRENT_VARIANTS = [1, 0, 0]
 
 
 # ----------------------------------------------------------------------------- histories
